@@ -134,3 +134,99 @@ func treeKeyRule(c *core.Ctx, r *core.Report, rule, consequence string) {
 		r.Fail(rule, "analysis/dataflow.NodeTree|key-writers", "", fmt.Sprintf("only %d store(s) to NodeTree.key found (root constructor and Add expected)", n))
 	}
 }
+
+// seenEnqueueRule: a traversal state is marked visited only if it is also
+// enqueued. In (*Visitor).addNext, no path leads from the update of the visited
+// set to a return without passing (before or after) through the append that
+// puts the node on the work queue. Otherwise a state that is dropped for another
+// reason (an edge guarded by a validator, an escape-context stop) is recorded as
+// seen, and a later legitimate arrival at the same state through another edge
+// is discarded as a duplicate: the flow through it is lost.
+func seenEnqueueRule(c *core.Ctx, r *core.Report, rule, pkgRel string) {
+	r.Explain(rule + ": in " + pkgRel + ".(*Visitor).addNext every path through the update of the visited set also executes the append of the node to the work queue (marked visited => enqueued).")
+	fn := c.Func(pkgRel, "Visitor.addNext")
+	if fn == nil {
+		r.Fail("infra.anchor-unresolved", rule+"|"+pkgRel+".Visitor.addNext", "", "not found")
+		return
+	}
+	isQueueAppend := func(ins ssa.Instruction) bool {
+		call, ok := ins.(*ssa.Call)
+		if !ok {
+			return false
+		}
+		b, ok := call.Call.Value.(*ssa.Builtin)
+		if !ok || b.Name() != "append" || len(call.Call.Args) == 0 {
+			return false
+		}
+		return strings.Contains(call.Call.Args[0].Type().String(), "dataflow.VisitorNode")
+	}
+	isSeenUpdate := func(ins ssa.Instruction) bool {
+		mu, ok := ins.(*ssa.MapUpdate)
+		if !ok {
+			return false
+		}
+		m, ok := types.Unalias(mu.Map.Type()).Underlying().(*types.Map)
+		if !ok {
+			return false
+		}
+		b, ok := types.Unalias(m.Elem()).Underlying().(*types.Basic)
+		return ok && b.Kind() == types.Bool && strings.HasSuffix(m.Key().String(), "dataflow.KeyType")
+	}
+	enq := map[*ssa.BasicBlock]int{} // block -> index of the append
+	var updates []ssa.Instruction
+	for _, b := range fn.Blocks {
+		for i, ins := range b.Instrs {
+			if isQueueAppend(ins) {
+				enq[b] = i
+			}
+			if isSeenUpdate(ins) {
+				updates = append(updates, ins)
+			}
+		}
+	}
+	if len(updates) == 0 || len(enq) == 0 {
+		r.Fail(rule, pkgRel+".Visitor.addNext|visited-and-queue", c.Pos(fn.Pos()), "no visited-set update or no append to the work queue found")
+		return
+	}
+	for i, u := range updates {
+		b := u.Block()
+		ui := core.InstrIndex(u)
+		ok := false
+		// enqueued before on every path: an enqueue block dominates the update (or precedes it in its block)
+		for eb, ei := range enq {
+			if (eb == b && ei < ui) || (eb != b && eb.Dominates(b)) {
+				ok = true
+			}
+		}
+		if !ok {
+			// enqueued after on every path: no return reachable from the update without crossing an enqueue
+			escaped := false
+			if ei, same := enq[b]; !(same && ei > ui) {
+				seen := map[*ssa.BasicBlock]bool{}
+				st := append([]*ssa.BasicBlock{}, b.Succs...)
+				if len(b.Succs) == 0 {
+					escaped = true
+				}
+				for len(st) > 0 && !escaped {
+					x := st[len(st)-1]
+					st = st[:len(st)-1]
+					if seen[x] {
+						continue
+					}
+					seen[x] = true
+					if _, has := enq[x]; has {
+						continue
+					}
+					if _, isRet := x.Instrs[len(x.Instrs)-1].(*ssa.Return); isRet {
+						escaped = true
+					}
+					st = append(st, x.Succs...)
+				}
+			}
+			ok = !escaped
+		}
+		r.Check(ok, rule, fmt.Sprintf("%s.Visitor.addNext|visited-implies-enqueued#%d", pkgRel, i+1), c.Pos(u.Pos()),
+			"a state marked visited is enqueued on every path",
+			"the state is marked visited on a path that returns without enqueuing it (a stop condition sits between the visited-set update and the append to the queue): when the state is later reached through another edge it is discarded as already seen and the flow through it is lost")
+	}
+}
